@@ -150,10 +150,17 @@ Span == /\ Can /\ On("break") /\ (Plain \/ AfterCloser) /\ lastc \notin {"bol", 
 
 \* 6.7 hard line breaks, 6.8 soft line breaks
 Break == /\ Can /\ On("break") /\ lastc \notin {"bol", "sp"} /\ ~AfterOpener /\ Len(lines) < 2
-         /\ \E k \in Pick({"soft", "soft1", "hard2", "hard3", "hardbs"}) :
-              /\ lines' = Append(lines, cur \o (CASE k = "soft" -> "" [] k = "soft1" -> " " [] k = "hard2" -> "  " [] k = "hard3" -> "   " [] OTHER -> "\\"))
+         \* "bs..." kinds: a backslash that is followed by a space is a literal backslash (2.4); an
+         \* escaped backslash before the line ending is a literal backslash and no hard break (6.7)
+         /\ \E k \in Pick({"soft", "soft1", "hard2", "hard3", "hardbs", "bshard2", "bssoft1", "bsbs", "bsbshard"}) :
+              /\ lines' = Append(lines, cur \o (CASE k = "soft" -> "" [] k = "soft1" -> " " [] k = "hard2" -> "  " [] k = "hard3" -> "   "
+                                                   [] k = "bshard2" -> "\\  " [] k = "bssoft1" -> "\\ " [] k = "bsbs" -> "\\\\" [] k = "bsbshard" -> "\\\\\\" [] OTHER -> "\\"))
               /\ cur' = ""
-              /\ toks' = toks \o (IF k \in {"soft", "soft1"} THEN <<"\n">> ELSE <<"<br />", "\n">>)
+              /\ toks' = toks \o (CASE k \in {"soft", "soft1"} -> <<"\n">>
+                                     [] k = "bshard2" -> <<"\\", "<br />", "\n">>
+                                     [] k \in {"bssoft1", "bsbs"} -> <<"\\", "\n">>
+                                     [] k = "bsbshard" -> <<"\\", "<br />", "\n">>
+                                     [] OTHER -> <<"<br />", "\n">>)
               /\ lastc' = "bol" /\ budget' = budget - 1
          /\ UNCHANGED <<open, used, fin, inlink>>
 
